@@ -114,6 +114,12 @@ mut("m15h_adapter_minus_delta", "C15", LIB, "self.history.get(time + self.time_d
 mut("m15i_start_at_zero_sign", "C15", LIB, "let time_delta = -time_getter.borrow().get()?;", "let time_delta = time_getter.borrow().get()?;")
 mut("m15j_follow_error_swallowed", "C15", LIB, "                let new_value = getter.borrow().get()?;", "                let new_value = match getter.borrow().get() { Ok(v) => v, Err(_) => return Ok(()) };")
 mut("m15k_set_time_offset_on_error", "C15", LIB, "    pub fn set_time(&mut self, time: Time) -> NothingOrError<E> {\n        let time_delta", "    pub fn set_time(&mut self, time: Time) -> NothingOrError<E> {\n        self.time_delta = Time(0);\n        let time_delta", note="offset must stay unchanged when the clock errs")
+# ---- C17
+REF = "src/reference.rs"
+mut("m17a_arc_mutex_try_lock", "C17", REF, "            Self::ArcMutex(arc_mutex) => BorrowMut::MutexGuard(\n                arc_mutex\n                    .lock()", "            Self::ArcMutex(arc_mutex) => BorrowMut::MutexGuard(\n                arc_mutex\n                    .try_lock()", note="panics only under contention")
+mut("m17b_arc_rwlock_try_write", "C17", REF, "            Self::ArcRwLock(arc_rw_lock) => BorrowMut::RwLockWriteGuard(\n                arc_rw_lock\n                    .write()", "            Self::ArcRwLock(arc_rw_lock) => BorrowMut::RwLockWriteGuard(\n                arc_rw_lock\n                    .try_write()", note="panics only under contention")
+mut("m17c_to_dyn_caller_cfg", "C17", REF, "            reference::ReferenceUnsafe::RcRefCell(rc_ref_cell) => Reference::from_rc_ref_cell(\n                rc_ref_cell\n                    as $crate::reference::__macro_support::Rc<", "            #[cfg(feature = \"alloc\")]\n            reference::ReferenceUnsafe::RcRefCell(rc_ref_cell) => Reference::from_rc_ref_cell(\n                rc_ref_cell\n                    as $crate::reference::__macro_support::Rc<", note="D3 re-introduced")
+mut("m17d_rc_clone_no_refcount", "C17", REF, "Self::RcRefCell(rc_ref_cell) => Self::RcRefCell(Rc::clone(&rc_ref_cell)),", "Self::RcRefCell(rc_ref_cell) => Self::RcRefCell(unsafe { Rc::from_raw(Rc::as_ptr(rc_ref_cell)) }),", note="target freed while a handle lives")
 # ---- C20
 mut("m20a_act_command_only", "C20", WRAP, "Some(terminal_data) => self.inner.set(terminal_data.value)?,", "Some(terminal_data) => { let mut v: TerminalData = terminal_data.value; v.state = None; self.inner.set(v)? }")
 mut("m20b_act_update_first", "C20", WRAP, "        self.update_terminals()?;\n        match self\n            .terminal", "        self.update_terminals()?;\n        self.inner.update()?;\n        match self\n            .terminal")
